@@ -14,7 +14,7 @@ use crate::engine::{fp, guarded, sample_strategy, CaseInfo, Run, Verdict};
 use crate::fuzzde::{from_bytes, to_bytes};
 use crate::gen::{sanitize, GenCfg};
 use crate::isolate::{run_entry, ENTRY_NAMES, N_ENTRIES};
-use crate::props::{c01, c03, c05, c08, c09, c13, c14};
+use crate::props::{c01, c03, c05, c08, c09, c10, c12, c13, c14, c20};
 use crate::terms::{denote, hex};
 use refmodel::dist::{read_dist_message, PeerCache};
 use refmodel::etf::Dec;
@@ -45,6 +45,11 @@ pub fn targets() -> Vec<Target> {
         Target { name: "c09", eval: eval_c09, seeds: seeds_c09, max_len: 2048 },
         Target { name: "c13", eval: eval_c13, seeds: seeds_c13, max_len: 2048 },
         Target { name: "c14seq", eval: eval_c14seq, seeds: seeds_c14seq, max_len: 2048 },
+        Target { name: "c10", eval: eval_c10, seeds: seeds_c10, max_len: 2048 },
+        Target { name: "c10id", eval: eval_c10id, seeds: seeds_c10id, max_len: 512 },
+        Target { name: "c12", eval: eval_c12, seeds: seeds_c12, max_len: 2048 },
+        Target { name: "c20range", eval: eval_c20range, seeds: seeds_c20range, max_len: 256 },
+        Target { name: "c20terms", eval: eval_c20terms, seeds: seeds_c20terms, max_len: 2048 },
     ]
 }
 
@@ -342,6 +347,73 @@ fn eval_c14seq(data: &[u8]) -> Verdict {
 }
 fn seeds_c14seq(seed: [u8; 32], n: usize) -> Vec<Vec<u8>> {
     ser(sample_strategy(&c14::seq_strategy(), seed, n), 2048)
+}
+
+pub fn c10_fix(mut c: c10::Case) -> c10::Case {
+    c.value = sanitize(&c.value, 0);
+    c.choices.truncate(64);
+    c.steps.truncate(6);
+    c
+}
+fn eval_c10(data: &[u8]) -> Verdict {
+    from_bytes::<c10::Case>(data).map_or_else(trivial, |c| c10::oracle(&c10_fix(c)))
+}
+fn seeds_c10(seed: [u8; 32], n: usize) -> Vec<Vec<u8>> {
+    ser(sample_strategy(&c10::strategy(), seed, n), 2048)
+}
+
+pub fn c10id_fix(mut c: c10::IdCase) -> c10::IdCase {
+    c.id = match sanitize(&c.id, 0) {
+        v @ (Value::Pid { .. } | Value::Port { .. } | Value::Ref { .. }) => v,
+        _ => Value::Pid { node: "n@h".into(), id: 1, serial: 2, creation: 3 },
+    };
+    c.tweak.truncate(16);
+    c
+}
+fn eval_c10id(data: &[u8]) -> Verdict {
+    from_bytes::<c10::IdCase>(data).map_or_else(trivial, |c| c10::id_oracle(&c10id_fix(c)))
+}
+fn seeds_c10id(seed: [u8; 32], n: usize) -> Vec<Vec<u8>> {
+    ser(sample_strategy(&c10::id_strategy(), seed, n), 512)
+}
+
+pub fn c12_fix(mut p: c12::Pair) -> c12::Pair {
+    p.a.value = sanitize(&p.a.value, 0);
+    p.b.value = sanitize(&p.b.value, 0);
+    p.a.repr.truncate(16);
+    p.b.repr.truncate(16);
+    p
+}
+fn eval_c12(data: &[u8]) -> Verdict {
+    from_bytes::<c12::Pair>(data).map_or_else(trivial, |p| c12::pair_oracle(&c12_fix(p)))
+}
+fn seeds_c12(seed: [u8; 32], n: usize) -> Vec<Vec<u8>> {
+    ser(sample_strategy(&c12::random_pair(), seed, n), 2048)
+}
+
+fn eval_c20range(data: &[u8]) -> Verdict {
+    from_bytes::<c20::RangeCase>(data).map_or_else(trivial, |mut c| {
+        c.probes.truncate(16);
+        c20::range_oracle(&c)
+    })
+}
+fn seeds_c20range(seed: [u8; 32], n: usize) -> Vec<Vec<u8>> {
+    ser(sample_strategy(&c20::range_strategy(), seed, n), 256)
+}
+
+pub fn c20terms_fix(mut c: c20::TermsCase) -> c20::TermsCase {
+    c.values.truncate(6);
+    let vals: Vec<Value> = c.values.iter().map(|v| sanitize(v, 0)).collect();
+    c.values = crate::gen::dedupe_map(vals.into_iter().map(|v| (v, Value::int(0))).collect(), false).into_iter().map(|(k, _)| k).collect();
+    c.strings.truncate(6);
+    c.repr.truncate(16);
+    c
+}
+fn eval_c20terms(data: &[u8]) -> Verdict {
+    from_bytes::<c20::TermsCase>(data).map_or_else(trivial, |c| c20::terms_oracle(&c20terms_fix(c)))
+}
+fn seeds_c20terms(seed: [u8; 32], n: usize) -> Vec<Vec<u8>> {
+    ser(sample_strategy(&c20::terms_strategy(), seed, n), 2048)
 }
 
 // ---- inside the fuzzer process -------------------------------------------------------------------------------
